@@ -63,6 +63,8 @@ type env struct {
 	obs   *model.Obs
 	names map[string]string // registered name -> instance id (first owner)
 	scans map[string]*simrt.TagScanner
+	// initLookups: holder -> "@init:<target id>" -> what the lookup from inside Init returned
+	initLookups map[string]map[string][]string
 }
 
 func rw(v reflect.Value) reflect.Value {
@@ -357,11 +359,15 @@ func Run(t *testing.T, bind *Binding, spec *RunSpec) *model.Obs {
 	ch.KeepSites = spec.KeepSites
 	ctx := simrt.NewCtx(ch)
 	ctx.Parallel = spec.Parallel
+	// event budget: generous multiple of what a start of this size needs (a fault-free
+	// start logs a few dozen events per component)
+	nc := len(spec.Prog.Instances) + len(spec.Prog.Procs) + len(spec.Prog.Scanners) + 12
+	ctx.EventBudget = 20000 + 40*nc*nc + 2000*nc
 	for _, f := range spec.Faults {
 		ctx.Armed[f] = true
 	}
 	e := &env{spec: spec, bind: bind, ctx: ctx, prog: spec.Prog, objs: map[string]any{}, ptrID: map[uintptr]string{},
-		subs: map[string]any{}, hands: map[string]*simrt.Handle{}, obs: obs, names: map[string]string{}, scans: map[string]*simrt.TagScanner{}}
+		subs: map[string]any{}, hands: map[string]*simrt.Handle{}, obs: obs, names: map[string]string{}, scans: map[string]*simrt.TagScanner{}, initLookups: map[string]map[string][]string{}}
 	syslog.SetLogger(simrt.SilentLogger{})
 
 	defer func() {
@@ -468,8 +474,34 @@ func (e *env) main(inClose, closeReturned *bool) {
 	// environment objects
 	var comps []any
 	var compIDs []string
+	var theApp *app.App
 	for _, inst := range p.Instances {
+		inst := inst
 		h := &simrt.Handle{ID: inst.ID, Alias: inst.Alias, Qual: inst.Qual, Kind: inst.Kind, Ord: inst.Order, C: ctx}
+		if len(inst.InitLookups) != 0 {
+			h.LookupFn = func(h *simrt.Handle) error {
+				for _, tid := range inst.InitLookups {
+					tgt := p.InstByID(tid)
+					if tgt == nil || theApp == nil {
+						continue
+					}
+					ctx.Log("init-lookup", inst.ID, tid)
+					c, err := theApp.GetComponentByName(p.NameOf(tgt))
+					got := []string{}
+					if err == nil && c != nil {
+						got = append(got, e.idOf(reflect.ValueOf(c)))
+					}
+					if e.initLookups[inst.ID] == nil {
+						e.initLookups[inst.ID] = map[string][]string{}
+					}
+					e.initLookups[inst.ID][tid] = got
+					if err != nil {
+						return err
+					}
+				}
+				return nil
+			}
+		}
 		o := e.newObject(inst.Type, h)
 		e.objs[inst.ID] = o
 		if _, dup := e.names[p.NameOf(inst)]; !dup {
@@ -555,6 +587,7 @@ func (e *env) main(inClose, closeReturned *bool) {
 	}
 
 	a := app.NewApp()
+	theApp = a
 	opts := []app.SettingOption{app.SetRegistry(reg), app.SetFactory(fac)}
 	if len(p.Sources) != 0 {
 		// start from an empty loader list so that the process's own argv plays no role
@@ -584,6 +617,12 @@ func (e *env) main(inClose, closeReturned *bool) {
 		obs.RunErr = true
 		obs.ErrText = firstLine(runErr.Error())
 	}
+	if ctx.OverBudget {
+		// the run exceeded its event budget (non-termination): no further phases
+		ctx.Quiet = true
+		spec = &RunSpec{SpecData: spec.SpecData, Prog: spec.Prog, TmpDir: spec.TmpDir}
+		spec.Lookups, spec.Continue, spec.Close = false, false, false
+	}
 	obs.EndOfRun = ctx.Log("end-of-run", "", "")
 
 	// observations
@@ -591,6 +630,12 @@ func (e *env) main(inClose, closeReturned *bool) {
 	obs.Cfg = map[string]map[string]string{}
 	for _, inst := range p.Instances {
 		obs.Points[inst.ID] = e.wiringOf(inst.ID)
+		if l := e.initLookups[inst.ID]; l != nil {
+			if obs.InitLookups == nil {
+				obs.InitLookups = map[string]map[string][]string{}
+			}
+			obs.InitLookups[inst.ID] = l
+		}
 		if c := e.cfgOf(inst.ID); c != nil {
 			obs.Cfg[inst.ID] = c
 		}
@@ -617,6 +662,10 @@ func (e *env) main(inClose, closeReturned *bool) {
 
 	lookup := func(inst *sdl.Instance) model.LookupObs {
 		var lo model.LookupObs
+		if ctx.OverBudget {
+			lo.Panic = "event budget exceeded"
+			return lo
+		}
 		func() {
 			defer func() {
 				if r := recover(); r != nil {
